@@ -234,7 +234,9 @@ fn run_search_coarse<S: Fl + Send, C: Cv<S> + Send + 'static>(cx: &mut Cx, count
     let ts: Vec<S> = (0..count).map(|i| if arbitrary { S::q(t.below(17) as i64, 16) } else { S::of(i as f64 / count as f64) }).collect();
     let coarse: Vec<(S, P3<S>)> = ts.iter().map(|&u| (u, cv.eval(u))).collect();
     sample!(cx, "{} {} controls={:?} p={:?} coarse: {} pairs{} h={:?} eps={:?}", S::NAME, C::NAME, pl.cp, p, count, if arbitrary { format!(" {:?}", ts) } else { " i/count".to_string() }, h, eps);
-    let (tt, pt) = match guarded(move || cv.search(p, coarse, h, eps)) {
+    let shape = t.below(4);
+    cx.label(["coarse-iter-exact-hint", "coarse-iter-filtered", "coarse-iter-from_fn", "coarse-iter-reversed"][shape]);
+    let (tt, pt) = match guarded(move || cv.search(p, coarse, h, eps, shape)) {
         Ok(r) => r,
         Err(m) if m == TIMEOUT => discard!("watchdog: call did not return within 30 s (inconclusive)"),
         Err(m) => fail!("{} binary_search_point(p, coarse with {} pairs, half_interval = {:?}, epsilon = {:?}) {}; controls {:?} p={:?}", C::NAME, count, h, eps, m, pl.cp, p),
